@@ -14,6 +14,7 @@ import (
 	"strings"
 	"time"
 
+	"github.com/my-cloud/ruthenium/validatornode/application"
 	"github.com/my-cloud/ruthenium/validatornode/domain/ledger"
 
 	"ruverif/internal/node"
@@ -1682,6 +1683,110 @@ func (sc *scenario) runHandover() {
 	}
 }
 
+// profile "interleave" (C16; monitors off: the MODEL predicts these outcomes, the unserializable one included): three
+// nodes share a chain, each produces its own tip (with a transaction of its own when it can), each then receives one
+// more transaction and runs its next tick WITH a whole sync round against the two others committing between the tick's
+// reads and its AddBlock (TickSync); ticks inside rounds and submissions inside rounds are mixed in.
+func (sc *scenario) runInterleave() {
+	r := sc.rng
+	w := sc.w
+	S := w.S
+	a, b, c := w.Nodes[0], w.Nodes[1], w.Nodes[2]
+	L := 3 + r.Intn(8)
+	sc.clock = T0
+	w.Tick(a, sc.clock)
+	for len(a.AllBlocks()) < L && w.Continue() {
+		if r.Intn(2) == 0 {
+			if tx, _ := sc.makeTx(a, pick(r, []string{"valid", "valid", "many-outputs"})); tx != nil {
+				w.Submit(a, tx)
+			}
+		}
+		sc.clock += S.Interval
+		w.Tick(a, sc.clock)
+	}
+	for _, f := range []*node.Node{b, c} {
+		w.Tick(f, T0)
+		if sc.catchUp(f, a, sc.clock, 3+ceilDiv(L, int(S.BlocksLimit)-1)) > 3+ceilDiv(L, int(S.BlocksLimit)-1) {
+			return
+		}
+	}
+	sc.mark("adopted")
+	nodes := []*node.Node{a, b, c}
+	for round := 0; round < 3 && w.Continue(); round++ {
+		sc.clock += S.Interval
+		for _, n := range nodes {
+			if tx, _ := sc.makeTx(n, pick(r, []string{"valid", "valid", "yield-new"})); tx != nil && r.Intn(4) != 0 {
+				if w.Submit(n, tx).Info["submit"] == "admitted" {
+					sc.mark("admitted")
+				}
+			}
+			w.Tick(n, sc.clock) // competing tips
+		}
+		for _, host := range nodes {
+			var nb []trace.Neighbour
+			for i, o := range nodes {
+				if o != host {
+					h := trace.Honest(o)
+					h.Target = fmt.Sprintf("tip%d", i)
+					nb = append(nb, h)
+				}
+			}
+			r.Shuffle(len(nb), func(i, j int) { nb[i], nb[j] = nb[j], nb[i] })
+			if tx, _ := sc.makeTx(host, pick(r, []string{"valid", "valid", "double-spend", "spend-last-block"})); tx != nil && r.Intn(5) != 0 {
+				w.Submit(host, tx)
+			}
+			switch r.Intn(4) {
+			case 0:
+				w.SyncTick(host, sc.clock, nb, sc.clock+S.Interval)
+			case 1:
+				if tx, _ := sc.makeTx(host, "valid"); tx != nil {
+					w.SyncSubmit(host, sc.clock, nb, tx)
+				} else {
+					w.Sync(host, sc.clock, nb)
+				}
+			default:
+				v := w.TickSync(host, sc.clock+S.Interval, sc.clock, nb)
+				w.Hist["ticksync-outcomes:"+v.Info["ticksync"]]++
+				// did the unserializable outcome occur (a chain no fresh node can adopt)?  counted, not judged: the model
+				// predicted whatever the node holds now
+				if !sc.adoptable(host.AllBlocks(), sc.clock+2*S.Interval) {
+					w.Hist["ticksync:chain-no-fresh-node-adopts"]++
+				} else {
+					w.Hist["ticksync:chain-adoptable"]++
+				}
+			}
+		}
+		// converge on a's chain before the next round (the blocks appended above are dated clock + interval)
+		sc.clock += S.Interval
+		for _, f := range []*node.Node{b, c} {
+			if !sameChain(f, a) {
+				sc.catchUp(f, a, sc.clock, 4)
+			}
+		}
+		if !sameChain(b, a) || !sameChain(c, a) {
+			return
+		}
+	}
+}
+
+// adoptable: a fresh node (outside the traced world) adopts the chain from a neighbour serving it
+func (sc *scenario) adoptable(chain []*ledger.Block, now int64) bool {
+	if len(chain) < 2 {
+		return true
+	}
+	f := node.New("probe", sc.w.S, sc.w.Wallets[0].Address)
+	f.Pool.Validate(T0)
+	page := sc.w.S.BlocksLimit
+	f.Senders.Set([]application.Sender{&node.Sender{TargetValue: "src", Blocks: func(h uint64) ([]byte, error) {
+		return json.Marshal(trace.PageOf(chain, h, page))
+	}}})
+	for i := 0; i < 3+len(chain) && len(f.AllBlocks()) < len(chain); i++ {
+		f.Chain.Update(now)
+	}
+	got := f.AllBlocks()
+	return len(got) == len(chain) && node.HashHex(got[len(got)-1]) == node.HashHex(chain[len(chain)-1])
+}
+
 // profiles "shape" (C04) and "alias" (C12), structured part: three honest nodes share one long chain (lengths around
 // Go's allocation size classes); one produces the next block; another is offered, in both orders, the neighbour that is
 // one block ahead and the neighbour that is level with it — the candidate of the first must survive the verification
@@ -1974,7 +2079,7 @@ func main() {
 			nn = 2 + 10
 		case "faults":
 			nn = 1
-		case "fork", "alias":
+		case "fork", "alias", "interleave":
 			nn = 3
 		}
 		handover := *profile == "pool" && rng.Intn(5) == 0
@@ -1986,7 +2091,7 @@ func main() {
 		for k := 0; k < nn; k++ {
 			validators = append(validators, k%5)
 		}
-		w, err := trace.NewWorld(s, 5, validators, rng, *driver, *profile != "offgrid")
+		w, err := trace.NewWorld(s, 5, validators, rng, *driver, *profile != "offgrid" && *profile != "interleave")
 		if err != nil {
 			fmt.Fprintln(os.Stderr, "cannot start driver:", err)
 			os.Exit(2)
@@ -2004,6 +2109,8 @@ func main() {
 			goto done
 		}
 		switch *profile {
+		case "interleave":
+			sc.runInterleave()
 		case "agree":
 			sc.runAgree(ops / 3)
 		case "catchup":
